@@ -110,7 +110,7 @@ constexpr bool is_bin_elem = std::is_integral<E>::value;
 
 template <typename E>
 SchemaP seq_schema(long fixed, long maxc) {
-  if constexpr (is_bin_elem<E>) return s_bin(sizeof(E), std::is_same<E, char>::value ? false : std::is_signed<E>::value, fixed, maxc);
+  if constexpr (is_bin_elem<E>) { Schema s = *s_bin(sizeof(E), std::is_same<E, char>::value ? false : std::is_signed<E>::value, fixed, maxc); s.boolean = std::is_same<E, bool>::value; return mk(s); }
   else return s_seq(MetaOf<E>::schema(), fixed, maxc);
 }
 template <typename E>
